@@ -396,6 +396,29 @@ func init() {
 		return final, s.observable(n)
 	})
 	RegisterImpl("C13.verify", c13Verify)
+	// [method; origin; dest; uri; has_content; content; keyid; url_rt (filled in)]: Sign + HTTPRequest,
+	// then VerifyHTTPRequest at a receiver named dest that holds the signing key, valid now
+	RegisterImpl("C13.roundtrip", func(args [][]byte) ([][]byte, []byte) {
+		final := append([][]byte{}, args...)
+		st := c13Step{string(args[1]), string(args[6]), "K1"}
+		s := c13DoSend(string(args[0]), "", string(args[2]), string(args[3]), string(args[4]) == "1", args[5], []c13Step{st})
+		final[7] = B(s.urlRT)
+		if s.stage != "" {
+			return final, B(s.stage)
+		}
+		if !s.httpOK {
+			return final, B("http=err")
+		}
+		if len(s.ha) != 1 {
+			return final, B("http=headers:" + strconv.Itoa(len(s.ha)))
+		}
+		sc, ok := c13Base(s, st, string(args[2]))
+		if !ok {
+			return final, B("target=unparsable")
+		}
+		_, out := c13Verify(sc.args())
+		return final, out
+	})
 	RegisterImpl("C13.parse_auth", func(args [][]byte) ([][]byte, []byte) {
 		scheme, o, d, k, g := fclient.ParseAuthorization(string(args[0]))
 		return args, []byte(strings.Join([]string{c13Line("s", []byte(scheme)), c13Line("o", []byte(o)), c13Line("d", []byte(d)),
@@ -579,6 +602,53 @@ func genC13(c *Ctx) {
 		t := sc.clone()
 		t.localsOn, t.locals, t.def = true, []string{"first.example", g.dest, "third.example"}, "first.example"
 		runV(t, "honest: one of several local names")
+	}
+
+	// ---- 2a. completeness on the implementation's outcome: the whole product of server-name
+	// classes (DNS, IPv4, bracketed IPv6, each with and without port) for origin and destination,
+	// with key IDs, bodies, methods and URIs; out-of-domain values ride along (the oracle decides) ----
+	rtNames := []string{"origin.example", "o.example:8448", "localhost", "a-b.c-d.example:1", "UPPER.Example", "1.2.3.4", "1.2.3.4:8448", "[::1]", "[::1]:8448",
+		"[2001:db8::1]", "[2001:db8::2]:8448", "[::ffff:1.2.3.4]:443", "[1:2:3:4:5:6:7:8]", "xn--bcher-kva.example:65535"}
+	rt := func(m, o, d, u string, b string, k string, desc string) {
+		hc := "0"
+		if b != "" {
+			hc = "1"
+		}
+		c.Run("C13.roundtrip", [][]byte{B(m), B(o), B(d), B(u), B(hc), B(b), B(k), B("")}, "", "C13.prop.roundtrip", desc)
+		c.Count("roundtrip/" + desc)
+	}
+	for _, o := range rtNames {
+		for _, d := range rtNames {
+			b := ""
+			if c.Rng.Intn(2) == 0 {
+				b = pick(bodies)
+			}
+			rt(pick(methods), o, d, pick(uris), b, pick(keyIDs), "names product")
+		}
+	}
+	for _, m := range append(append([]string{}, methods...), badMethods...) {
+		rt(m, pick(rtNames), pick(rtNames), "/a?b=c", "", "ed25519:k1", "methods")
+	}
+	for _, u := range append(append([]string{}, uris...), badUris...) {
+		rt("GET", pick(rtNames), pick(rtNames), u, "", "ed25519:k1", "uris")
+		rt("PUT", pick(rtNames), pick(rtNames), u, pick(bodies), "ed25519:k1", "uris")
+	}
+	for _, b := range append(append([]string{}, bodies...), ` `, `{`, "{\"a\":\"\xff\"}", `{"a":01}`) {
+		rt("PUT", pick(rtNames), pick(rtNames), "/a", b, pick(keyIDs), "bodies")
+	}
+	for _, k := range append(append([]string{}, keyIDs...), oddKeyIDs...) {
+		rt("GET", pick(rtNames), pick(rtNames), "/a", "", k, "key ids")
+	}
+	for _, o := range append(append([]string{}, badOrigins...), "o.example:65536", "") {
+		rt("GET", o, "dest.example", "/a", "", "ed25519:k1", "names outside the grammar")
+		rt("GET", "origin.example", o, "/a", "", "ed25519:k1", "names outside the grammar")
+	}
+	for i, m := 0, c.Scale(300, 5000); i < m; i++ {
+		b := ""
+		if c.Rng.Intn(2) == 0 {
+			b = pick(bodies)
+		}
+		rt(pick(methods), pick(rtNames), pick(rtNames), pick(uris), b, pick(keyIDs), "random")
 	}
 
 	// ---- 2b. requests really signed by a key stored under a name that is not a valid server name
